@@ -24,6 +24,9 @@ RULE = (
     "collapsing whitespace / turning a comment's newline into a blank / folding case / normalising Unicode / stripping blanks inside a literal) parsed one after the "
     "other in one process, each against its own intended tree. distinct_nontrivial = distinct trees with >= 2 operators."
 )
+TECHNIQUE = (
+    "runtime monitoring: parser and tree_dump observed on harness-built trees (all operator pairs, sampled/enumerated triples, random trees, look-alike text pairs) against the intended tree; dump round trip"
+)
 ASSUMPTIONS = [
     "the harness's own precedence table (CEL langdef: ?: lowest and right-associative, ||, &&, relations, + -, * / %, unary, member) is the specification",
     "the lexer folds a leading '-' into a numeric literal where a literal may start (cel-spec issue 126); neg(literal N) and literal(-N) are identified",
